@@ -56,9 +56,9 @@ Record cfg := { cv : value -> Q; s_negcount : bool; s_negdur : bool; s_nearint :
 Definition real : cfg := {| cv := raw_of; s_negcount := false; s_negdur := false; s_nearint := false; s_parallel := false |}.
 Definition lax : cfg := {| cv := time_of; s_negcount := false; s_negdur := false; s_nearint := false; s_parallel := false |}.
 Definition ideal : cfg := {| cv := time_of; s_negcount := true; s_negdur := true; s_nearint := true; s_parallel := true |}.
-(* the code with exactly one finding class made explicit *)
+(* exactly one finding class made explicit (classes are defined on time values: decimal reading) *)
 Definition only (k : finding) : cfg :=
-  {| cv := raw_of;
+  {| cv := time_of;
      s_negcount := match k with FNegCount => true | _ => false end;
      s_negdur := match k with FNegDuration => true | _ => false end;
      s_nearint := match k with FNearInteger => true | _ => false end;
@@ -321,7 +321,7 @@ Fixpoint wf_of (c : cfg) (p : pt) (e : env) : res (option comps) :=
                      | None => true
                      | Some d => match eval e d with
                                  | Ok dv => Qeqb (cv c dv) (match res with Some w => cdur w | None => 0 end)
-                                 | _ => true
+                                 | _ => false     (* declared duration not evaluated by the code (no part has a waveform) and not exact *)
                                  end
                      end)
       then Err (EFinding FParallel) else Ok res
